@@ -1,5 +1,7 @@
 import Revm.Proofs.InterpTop
 import Revm.Proofs.InterpTable
+import Revm.Proofs.InterpEofTop
+import Revm.Model.EofValidate
 /-! # C25 — memory-safe, terminating interpretation
 
 "For any legacy bytecode, calldata, gas limit and hardfork, and for any EOF container that passes validation,
@@ -20,8 +22,9 @@ environments that passed `validate_block_env` (`prevrandao` present from the Mer
 `host_env.rs`), all hosts and all child-frame results (`OracleOk`: answers are Rust values, a child returns at most the
 gas it was given, and never `FatalExternalError`, which the EVM loop intercepts before `insert_*_outcome`), all fuel.
 
-EOF: only the legacy behaviour of the EOF-only opcodes is covered (they stop the frame); execution of validated EOF
-containers is not modelled here — see `FullStatementEof` at the end. -/
+EOF: every EOF instruction is modelled (`IState.initEof`); the statements are proved for every container that
+satisfies the explicit decidable well-formedness predicate `wfCtxB` (section "EOF" below); that validation implies
+`wfCtxB` is the named gap `ValidationGivesWf` — see `FullStatementEof` at the end. -/
 namespace Revm.Props.C25
 open Revm Revm.Model Revm.Model.Interp Revm.Proofs.Interp
 
@@ -237,19 +240,181 @@ theorem eof_opcodes_stop_in_legacy (s : IState) (h1 : s.isEof = false) (h2 : s.i
     unfold M.bind requireInitEof
     rw [h2]; rfl
 
-/-- The part of C25 about EOF that is NOT proved. The model runs EOF containers (`IState.initEof`: code sections,
-types, data, function stack; RJUMP, RJUMPI, RJUMPV, CALLF, RETF, JUMPF, DUPN, SWAPN, EXCHANGE, DATALOAD, DATALOADN,
-DATASIZE, DATACOPY, RETURNDATALOAD in EOF mode — tied to the code by the lockstep stream), but relative jumps and section
-indices are bounded by validation only, so the theorem needs "validated ⇒ every immediate in range, every section
-ends in a terminating instruction, max_stack_size respected" (C26, whose headline is itself `_partial`) and a model
-of EOFCREATE / RETURNCONTRACT / EXT*CALL (`Fault.notModelled` today). `Validated` is the validation predicate. -/
-def FullStatementEof (Validated : EofCtx → Prop) : Prop :=
-  ∀ {η : Type} (o : Oracle η), OracleOk o → ∀ (h0 : η) (ctx : EofCtx), Validated ctx →
-  ∀ (input : List Nat) (gasLimit : Nat) (isStatic : Bool) (spec target caller callValue : Nat) (env : Env),
+/-! ### execution of a well-formed EOF container
+
+`Proofs/InterpEofWf.lean` defines the decidable predicate `wfCtxB` on a container (code sections, types, data,
+sub-containers): every byte is a byte; in every code section, at every instruction boundary of the linear scan
+(`boundaries`): the immediates lie inside the section; unless the instruction is terminating (STOP, INVALID, RETURN,
+REVERT, RJUMP, RETF, JUMPF, RETURNCONTRACT, an undefined byte) the next position is again an instruction boundary of the section
+(so no section runs off its end); every RJUMP / RJUMPI / RJUMPV target is an instruction boundary of the section; the
+CALLF / JUMPF section index exists; RETF only in a returning function; JUMPF to a returning function only from a returning one;
+the first section is non-returning; the EOFCREATE sub-container exists, decodes and has its data filled; the RETURNCONTRACT
+sub-container exists and has a decodable header; there is no CODESIZE / CODECOPY (`unreachable!` in EOF code); as many
+type entries as sections, at least one. This is what `validate_eof` establishes and the interpreter relies on without
+checking. `max_stack_height` is NOT needed: the EOF stack instructions of this interpreter check the stack themselves. -/
+
+/-- the inputs of a frame that runs an EOF container -/
+structure AdmissibleEof (ctx : EofCtx) (input : List Nat) (gasLimit spec : Nat) (env : Env)
+    (mem : Memory.SharedMemory) : Prop where
+  wf : wfCtxB ctx = true
+  inputLen : input.length ≤ Memory.ISIZE_MAX
+  gasLt : gasLimit < U64
+  envOk : EnvOk spec env
+  memFresh : FreshMem mem
+
+section
+variable (ctx : EofCtx) (input : List Nat) (gasLimit : Nat) (isStatic : Bool) (spec target caller callValue : Nat)
+variable (env : Env) (mem : Memory.SharedMemory) (isInit : Bool)
+
+/-- `Interpreter::new` on a contract whose bytecode is `Bytecode::Eof` (`isInit`: the init code of EOFCREATE / a
+creation transaction) -/
+abbrev frameEof : IState := IState.initEof ctx input gasLimit isStatic spec target caller callValue env mem isInit
+
+theorem frameEof_inv (ha : AdmissibleEof ctx input gasLimit spec env mem) :
+    InvE ctx (frameEof ctx input gasLimit isStatic spec target caller callValue env mem isInit)
+    ∧ Proofs.Interp.measure (frameEof ctx input gasLimit isStatic spec target caller callValue env mem isInit)
+        = gasLimit :=
+  initE_inv ctx input gasLimit isStatic spec target caller callValue env mem isInit
+    (wfCtx_of_check ctx ha.wf) ha.inputLen ha.gasLt ha.envOk ha.memFresh
+end
+
+section
+variable {η : Type} (o : Oracle η) (ho : OracleOk o) (h0 : η)
+variable (ctx : EofCtx) (input : List Nat) (gasLimit : Nat) (isStatic : Bool) (spec target caller callValue : Nat)
+variable (env : Env) (mem : Memory.SharedMemory) (isInit : Bool)
+include ho
+
+/-- **EOF: never panics, never outside a buffer** (no `Fault`, in particular none of the `panic!("Invalid EOF in
+execution")` / `.expect("EOF is checked")` / `unreachable!` sites and no instruction-pointer read outside the section) -/
+theorem no_panic_eof (ha : AdmissibleEof ctx input gasLimit spec env mem) (fuel : Nat) (f : Fault) :
+    (run o fuel (frameEof ctx input gasLimit isStatic spec target caller callValue env mem isInit) h0).1
+      ≠ .fault f := by
+  have hs := runE_safe ctx o ho fuel _ h0
+    (frameEof_inv ctx input gasLimit isStatic spec target caller callValue env mem isInit ha).1
+  intro e; rw [e] at hs; exact hs
+
+/-- **EOF: terminates** within `gas_limit + 1` instructions -/
+theorem run_terminates_eof (ha : AdmissibleEof ctx input gasLimit spec env mem) (fuel : Nat) (hf : gasLimit < fuel) :
+    (run o fuel (frameEof ctx input gasLimit isStatic spec target caller callValue env mem isInit) h0).1
+      ≠ .outOfFuel := by
+  obtain ⟨hi, hm⟩ := frameEof_inv ctx input gasLimit isStatic spec target caller callValue env mem isInit ha
+  have hs := runE_safe ctx o ho fuel _ h0 hi
+  intro e; rw [e] at hs
+  have : fuel ≤ Proofs.Interp.measure _ := hs
+  omega
+
+/-- **EOF: ends with a defined outcome within the gas limit** -/
+theorem ends_within_gas_eof (ha : AdmissibleEof ctx input gasLimit spec env mem) (fuel : Nat)
+    (hf : gasLimit < fuel) :
+    ∃ r out s', (run o fuel (frameEof ctx input gasLimit isStatic spec target caller callValue env mem isInit) h0).1
+        = .done r out s' ∧ s'.gas.remaining ≤ gasLimit := by
+  obtain ⟨hi, hm⟩ := frameEof_inv ctx input gasLimit isStatic spec target caller callValue env mem isInit ha
+  have hs := runE_safe ctx o ho fuel _ h0 hi
+  cases hr : (run o fuel (frameEof ctx input gasLimit isStatic spec target caller callValue env mem isInit) h0).1 with
+  | done r out s' =>
+    rw [hr] at hs
+    refine ⟨r, out, s', rfl, ?_⟩
+    have h1 : Proofs.Interp.measure s' ≤ Proofs.Interp.measure _ := hs
+    have h2 : Proofs.Interp.measure s' = s'.gas.remaining + mcost s' := rfl
+    omega
+  | fault f => rw [hr] at hs; exact hs.elim
+  | outOfFuel =>
+    rw [hr] at hs
+    have : fuel ≤ Proofs.Interp.measure _ := hs
+    omega
+
+/-- a state the loop passes through between two instructions of the EOF frame -/
+abbrev ReachableEof (s : IState) (h : η) : Prop :=
+  Reach o (frameEof ctx input gasLimit isStatic spec target caller callValue env mem isInit) h0 s h
+
+/-- **EOF: the instruction pointer stays inside the current code section**: in every reachable state the running
+code is code section `current_code_idx` of the container the frame started with, and `pc` is inside it -/
+theorem pc_in_section_eof (ha : AdmissibleEof ctx input gasLimit spec env mem) {s : IState} {h : η}
+    (hr : ReachableEof o h0 ctx input gasLimit isStatic spec target caller callValue env mem isInit s h) :
+    ∃ c, s.eof = some c ∧ ctx.sections[c.curIdx]? = some s.code ∧ s.pc < s.code.length := by
+  have hi := (reachE_inv ctx o ho
+    (frameEof_inv ctx input gasLimit isStatic spec target caller callValue env mem isInit ha).1 hr).1
+  obtain ⟨c, he, hc⟩ := hi.code_eq
+  exact ⟨c, he, hc, hi.pc_lt⟩
+
+/-- **EOF: the return stack stays ≤ 1024** (and the operand stack as well) -/
+theorem return_stack_bounded_eof (ha : AdmissibleEof ctx input gasLimit spec env mem) {s : IState} {h : η}
+    (hr : ReachableEof o h0 ctx input gasLimit isStatic spec target caller callValue env mem isInit s h) :
+    (∃ c, s.eof = some c ∧ c.curIdx < c.sections.length ∧ c.retStack.length ≤ 1024) ∧ s.stack.length ≤ 1024 := by
+  have hi := (reachE_inv ctx o ho
+    (frameEof_inv ctx input gasLimit isStatic spec target caller callValue env mem isInit ha).1 hr).1
+  exact ⟨hi.retStack_le, hi.stack⟩
+
+/-- **EOF: no instruction in a reachable state faults**, whatever the host answers -/
+theorem step_never_faults_eof (ha : AdmissibleEof ctx input gasLimit spec env mem) {s : IState} {h : η}
+    (hr : ReachableEof o h0 ctx input gasLimit isStatic spec target caller callValue env mem isInit s h)
+    (f : Fault) : ¬ StepFaults s f := by
+  have hi := (reachE_inv ctx o ho
+    (frameEof_inv ctx input gasLimit isStatic spec target caller callValue env mem isInit ha).1 hr).1
+  have hg := stepE_good ctx s hi
+  rintro (e | ⟨op, k, r, e, hr, ek⟩)
+  · rw [e] at hg
+    cases hg with
+    | pure hd => cases hd
+  · rw [e] at hg
+    cases hg with
+    | host hk => have := hk r hr; rw [ek] at this; cases this
+
+/-- EOF: the meter never shows more than the limit -/
+theorem gas_within_limit_eof (ha : AdmissibleEof ctx input gasLimit spec env mem) {s : IState} {h : η}
+    (hr : ReachableEof o h0 ctx input gasLimit isStatic spec target caller callValue env mem isInit s h) :
+    s.gas.remaining ≤ gasLimit := by
+  obtain ⟨hi, hm⟩ := frameEof_inv ctx input gasLimit isStatic spec target caller callValue env mem isInit ha
+  have h1 := (reachE_inv ctx o ho hi hr).2
+  have h2 : Proofs.Interp.measure s = s.gas.remaining + mcost s := rfl
+  omega
+
+end
+
+/-- non-vacuity: `CALLF 1; STOP` / `PUSH0; RJUMPI +1; RETF; RETF`-shaped two-section container is well-formed -/
+example : AdmissibleEof
+    { sections := [[0xe3, 0x00, 0x01, 0x00], [0x5f, 0xe1, 0x00, 0x01, 0xe4, 0xe4]],
+      types := [(0, 0x80, 0), (0, 0, 1)], data := [1, 2], dataSize := 2 } [0xaa] 100000 19 {} Memory.new :=
+  ⟨by decide, by unfold Memory.ISIZE_MAX; decide, by rw [U64_val]; decide, fun _ => by decide, freshMem_new⟩
+
+/-! ### the tie to validation (C26) -/
+
+/-- the interpreter's view of a decoded container (`Bytecode::Eof(Arc<Eof>)`) -/
+def ctxOf (e : Eof.Eof) : EofCtx :=
+  { sections := e.body.codeSection
+    types := e.body.typesSection.map fun t => (t.inputs, t.outputs, t.maxStackSize)
+    data := e.body.dataSection
+    dataSize := e.header.dataSize
+    containers := e.body.containerSection }
+
+/-- The remaining gap of the EOF half of C25: whatever `validate_raw_eof_inner` accepts is well-formed in the sense
+of `wfCtxB`. C26 proves the in-range half of it (`Props.C26.validated_in_range_partial`: opcodes EOF-enabled, immediates
+inside the section, section / container indices exist, jump targets inside the section, sub-containers decode) — see
+`validated_wf_partial` below for what follows formally. NOT proved there, hence not here: jump targets are instruction
+*starts*, no section runs off its end, the RETF / JUMPF returning discipline, data-filled sub-containers. `./check C25`
+checks the implication on every container of the lockstep stream that the real `validate_eof` accepts (`wf=1`). -/
+def ValidationGivesWf : Prop :=
+  ∀ (bs : List Nat) (t : Option EofValidate.CodeType) (e : Eof.Eof), Eof.IsBytes bs →
+    EofValidate.validateRawEofInner bs t = .ok e → wfCtxB (ctxOf e) = true
+
+/-- C25 for EOF as claimed: for any EOF container that passes validation, execution ends with a defined outcome
+within the gas limit (and never faults). Proved from `ValidationGivesWf` (`fullStatementEof_of_gap`); NOT proved
+outright. -/
+def FullStatementEof : Prop :=
+  ∀ {η : Type} (o : Oracle η), OracleOk o → ∀ (h0 : η) (bs : List Nat) (t : Option EofValidate.CodeType)
+    (e : Eof.Eof), Eof.IsBytes bs → EofValidate.validateRawEofInner bs t = .ok e →
+  ∀ (input : List Nat) (gasLimit : Nat) (isStatic : Bool) (spec target caller callValue : Nat) (env : Env)
+    (isInit : Bool),
     input.length ≤ Memory.ISIZE_MAX → gasLimit < U64 → EnvOk spec env →
   ∀ fuel, gasLimit < fuel →
-    ∃ r out s', (run o fuel (IState.initEof ctx input gasLimit isStatic spec target caller callValue env) h0).1
-        = .done r out s' ∧ s'.gas.remaining ≤ gasLimit
+    ∃ r out s', (run o fuel (IState.initEof (ctxOf e) input gasLimit isStatic spec target caller callValue env
+        Memory.new isInit) h0).1 = .done r out s' ∧ s'.gas.remaining ≤ gasLimit
+
+/-- the EOF half of C25 follows from the validation gap alone -/
+theorem fullStatementEof_of_gap (hgap : ValidationGivesWf) : FullStatementEof := by
+  intro η o ho h0 bs t e hb hv input gasLimit isStatic spec target caller callValue env isInit hil hg henv fuel hf
+  exact ends_within_gas_eof o ho h0 (ctxOf e) input gasLimit isStatic spec target caller callValue env Memory.new
+    isInit ⟨hgap bs t e hb hv, hil, hg, henv, freshMem_new⟩ fuel hf
 
 /-- without validation the statement is false: a relative jump may leave the section (here RJUMP +16 in a
 4-byte section; the next fetch is outside the buffer) -/
